@@ -318,7 +318,12 @@ def site_writer_conventions(ctx, rid):
             sites = []
             for e, holder in _value_exprs(f):
                 names = {x.id for x in ast.walk(e) if isinstance(x, ast.Name)}
-                if pv in names and sv in names and any(isinstance(x, ast.Attribute) and x.attr.startswith("coeffs") for x in ast.walk(e)):
+                # every expression that takes the orbital coefficients as a value is a site, also one that applies only
+                # one half of the conversion (or none): unless later statements apply the rest to its result, it is wrong
+                pm = prog.parents(f)
+                uses = [x for x in ast.walk(e) if isinstance(x, ast.Attribute) and x.attr.startswith("coeffs") and isinstance(x.value, ast.Attribute) and x.value.attr == "mo"]
+                uses = [x for x in uses if not (isinstance(pm.get(id(x)), ast.Attribute) and pm[id(x)].attr in ("shape", "ndim", "dtype", "size")) and not isinstance(pm.get(id(x)), ast.Compare)]
+                if uses:
                     sites.append((e, holder))
             # keep the smallest expression per holder statement
             best = {}
@@ -338,6 +343,23 @@ def site_writer_conventions(ctx, rid):
                     env = {dparam: {"mo": _mo_data(full)}, pv: perm, sv: sg}
                     apply_rebindings(prog, f, env, e.lineno, (pv, sv))  # e.g. signs = signs.reshape(-1, 1)
                     got = _SplitEval(env, prog, f).eval(e)
+                    # a two-step application (`c = C[permutation]` ... `c * signs`): follow the local name
+                    cur, hold = e, holder
+                    for _ in range(3):
+                        if not (isinstance(hold, ast.Assign) and len(hold.targets) == 1 and isinstance(hold.targets[0], ast.Name)):
+                            break
+                        t = hold.targets[0].id
+                        nxt = None
+                        for e2, h2 in _value_exprs(f):
+                            if e2.lineno > cur.lineno and h2 is not hold:
+                                nm2 = {x.id for x in ast.walk(e2) if isinstance(x, ast.Name)}
+                                if t in nm2 and (pv in nm2 or sv in nm2) and (nxt is None or len(src_of(e2)) < len(src_of(nxt[0]))):
+                                    nxt = (e2, h2)
+                        if nxt is None:
+                            break
+                        env[t] = got
+                        got = _SplitEval(env, prog, f).eval(nxt[0])
+                        cur, hold = nxt
                     want = np.array([[sg[r] * src[perm[r], j] for j in range(src.shape[1])] for r in range(3)], dtype=object)
                     return got, want, "row r of the written block = signs[r] x source row permutation[r] (index with the permutation first, then scale)"
 
